@@ -156,7 +156,9 @@ type SkipResult struct {
 	MaxDepth int
 }
 
-func u32(b []byte) uint32 { return uint32(b[0])<<24 | uint32(b[1])<<16 | uint32(b[2])<<8 | uint32(b[3]) }
+func u32(b []byte) uint32 {
+	return uint32(b[0])<<24 | uint32(b[1])<<16 | uint32(b[2])<<8 | uint32(b[3])
+}
 
 // Skip parses one value of type t at the start of b.  It has no recursion limit of its own;
 // callers compare MaxDepth with the boundary zone.  Inputs must be small enough to recurse on.
@@ -288,4 +290,108 @@ func skip(b []byte, t int8, level int, maxd *int) (int, Cause) {
 		}
 	}
 	return 0, UnknownType
+}
+
+// MaxDeclared walks b as a sequence of struct fields (as a FastRead / unknown-field parser would:
+// field header, value, ... until STOP, end of input or the first malformed node) and reports the
+// largest declared container size among the headers REACHED for which want(level, topID, topType)
+// is true; level 1 = a container that is itself a top-level field value.  Used to keep inputs whose
+// declared sizes exceed the property's cap away from entry points that allocate the declared size.
+func MaxDeclared(b []byte, want func(level int, topID int16, topType int8) bool) uint32 {
+	var max uint32
+	off := 0
+	for off < len(b) {
+		ft := int8(b[off])
+		if ft == STOP || len(b)-off < 3 {
+			break
+		}
+		id := int16(uint16(b[off+1])<<8 | uint16(b[off+2]))
+		off += 3
+		n, ok := walk(b[off:], ft, 1, func(level int, size uint32) {
+			if want(level, id, ft) && size > max {
+				max = size
+			}
+		})
+		if !ok {
+			break
+		}
+		off += n
+	}
+	return max
+}
+
+func walk(b []byte, t int8, level int, on func(level int, size uint32)) (int, bool) {
+	if fs := FixedSize(t); fs > 0 {
+		if len(b) < fs {
+			return 0, false
+		}
+		return fs, true
+	}
+	switch t {
+	case STRING:
+		if len(b) < 4 {
+			return 0, false
+		}
+		n := u32(b)
+		if n > uint32(len(b)-4) {
+			return 0, false
+		}
+		return 4 + int(n), true
+	case LIST, SET:
+		if len(b) < 5 {
+			return 0, false
+		}
+		et, n := int8(b[0]), u32(b[1:])
+		on(level, n)
+		off := 5
+		for i := uint32(0); i < n; i++ {
+			m, ok := walk(b[off:], et, level+1, on)
+			if !ok {
+				return 0, false
+			}
+			off += m
+		}
+		return off, true
+	case MAP:
+		if len(b) < 6 {
+			return 0, false
+		}
+		kt, vt, n := int8(b[0]), int8(b[1]), u32(b[2:])
+		on(level, n)
+		off := 6
+		for i := uint32(0); i < n; i++ {
+			m, ok := walk(b[off:], kt, level+1, on)
+			if !ok {
+				return 0, false
+			}
+			off += m
+			m, ok = walk(b[off:], vt, level+1, on)
+			if !ok {
+				return 0, false
+			}
+			off += m
+		}
+		return off, true
+	case STRUCT:
+		off := 0
+		for {
+			if len(b)-off < 1 {
+				return 0, false
+			}
+			ft := int8(b[off])
+			if ft == STOP {
+				return off + 1, true
+			}
+			if len(b)-off < 3 {
+				return 0, false
+			}
+			off += 3
+			m, ok := walk(b[off:], ft, level+1, on)
+			if !ok {
+				return 0, false
+			}
+			off += m
+		}
+	}
+	return 0, false
 }
